@@ -22,11 +22,14 @@ N   == Len(VS)
 Tab == [x \in 1..N |-> [y \in 1..N |-> VerCmp(VS[x], VS[y])]]
 
 (* ---- growth of a version by one element ---- *)
-GrowComp(v, w) == \E d \in C9 : w = [v EXCEPT !.nums = Append(v.nums, d)]
-GrowSufP(v, w) == \E n \in N4 : w = [v EXCEPT !.sufs = Append(v.sufs, [k |-> "p", n |-> n])]
-GrowSufM(v, w) == \E s \in VSuf(VSufKinds \ {"p"}, N4) : w = [v EXCEPT !.sufs = Append(v.sufs, s)]
-GrowLet(v, w)  == v.letter = 0 /\ \E l \in 1..26 : w = [v EXCEPT !.letter = l]
-GrowRev(v, w)  == \E r \in R4 : VNatCmp(r, v.rev) = 1 /\ w = [v EXCEPT !.rev = r]
+\* (structural tests: w is v plus one trailing element / a letter / a larger revision)
+VSameBut(v, w, f) == \A g \in {"nums", "letter", "sufs", "rev"} \ {f} : v[g] = w[g]
+VExtends(s, t)    == Len(t) = Len(s) + 1 /\ \A x \in 1..Len(s) : t[x] = s[x]
+GrowComp(v, w) == VSameBut(v, w, "nums") /\ VExtends(v.nums, w.nums)
+GrowSufP(v, w) == VSameBut(v, w, "sufs") /\ VExtends(v.sufs, w.sufs) /\ w.sufs[Len(w.sufs)].k = "p"
+GrowSufM(v, w) == VSameBut(v, w, "sufs") /\ VExtends(v.sufs, w.sufs) /\ w.sufs[Len(w.sufs)].k # "p"
+GrowLet(v, w)  == VSameBut(v, w, "letter") /\ v.letter = 0 /\ w.letter # 0
+GrowRev(v, w)  == VSameBut(v, w, "rev") /\ VNatCmp(w.rev, v.rev) = 1
 Up(v, w)   == GrowComp(v, w) \/ GrowSufP(v, w) \/ GrowLet(v, w) \/ GrowRev(v, w)
 Down(v, w) == GrowSufM(v, w)
 \* successor tables, computed once
